@@ -48,6 +48,16 @@ CLAIMS = {
    note=TB+"NOT decided: package/file order delivered by go/packages, go/printer, the regexp cut on text containing the random marker, stderr interleaving.",
    technique="SMT-guided symbolic execution of go/ssa with map-order forking and cross-path (2-safety) solver queries; SSA inventory; native replay by repetition",
    ref="4/C13"),
+ "C17": dict(
+   text="Symbolic execution of the real front end (NewParser's ParseFile hook, Parse, findConvergenEntries, parseMethods, CreateFunctions) on skeleton packages with native go/types objects, for every combination of interface doc comments from a menu (marked / unmarked / look-alike spellings), incl. a marked interface in a sibling file, a marked non-interface and a file without converter interface; plus the marker-substitution kernel (every function block lands at its own interface's marker). Sampled paths are validated by running the same harness natively on the materialised skeleton.",
+   note=TB+"Programs are the skeleton catalogue (sel, nointf). NOT decided: that unmarked interfaces are printed untouched (go/printer).",
+   technique="symbolic execution of go/ssa with native go/types bridge over skeleton packages; exhaustive menu exploration; native replay",
+   ref="4/C17"),
+ "C09": dict(
+   text="Symbolic execution of the real notation pipeline (findConvergenEntries, parseMethods, parseMethod, parseNotationInComments, Options copies) on a 2x2 interface/method skeleton for every placement of ON/OFF notations of all six toggle families and of list notations, compared against a reference fold of the README's scoping rule; non-interference of other toggles, other methods and other interfaces; append-aliasing of option slices; case-rule override seen through ShouldSkip.",
+   note=TB+"Programs: skeleton scope; notation texts from menus (28800 combinations).",
+   technique="symbolic execution of go/ssa with native go/types bridge; exhaustive slot exploration against a reference model; native replay",
+   ref="4/C09"),
 }
 
 NA_REASON = "check under construction in this session (engine exists, harness not yet registered); see DESIGN.md section 4"
